@@ -75,7 +75,7 @@ pub fn case_replayable(case: &Case) -> bool {
         Case::Input(_) | Case::Ops { .. } => true,
         // (cases of the feature-less build are decided by the second binary and cannot be
         // re-executed inside this one)
-        Case::Text(t) => !t.starts_with("vpair:unreplayable:") && !t.starts_with("direction:base:") && ["triple:", "pair:", "mpair:", "direction:", "arg:", "partsidx:", "vpair:", "conc:", "unk:", "hist:", "dirhist:likelysubtags:", "count:", "countw:", "other:", "law7:"].iter().any(|p| t.starts_with(p)),
+        Case::Text(t) => !t.starts_with("vpair:unreplayable:") && !t.starts_with("direction:base:") && ["triple:", "pair:", "mpair:", "direction:", "arg:", "partsidx:", "vpair:", "conc:", "unk:", "hist:", "dirhist:likelysubtags:", "count:", "countw:", "other:", "law7:", "spelling:"].iter().any(|p| t.starts_with(p)),
     }
 }
 
@@ -116,6 +116,8 @@ pub fn replay_case(_ctx: &Ctx, sub: &'static str, case: &Case) -> Vec<(String, S
                 Err(e) => eprintln!("replay: {}", e),
             }
         }
+        #[cfg(feature = "likelysubtags")]
+        Case::Text(t) if t.starts_with("spelling:") => likely::replay_spelling(t, &coll, sub),
         #[cfg(feature = "likelysubtags")]
         Case::Text(t) if t.starts_with("law7:") => likely::replay_law7(t, &coll),
         #[cfg(feature = "likelysubtags")]
